@@ -7,6 +7,9 @@ from vf.ref import bech32_ref as B
 from vf.runner import Acc, filler
 
 PROPERTY = "C06"
+CONCUR_FILES = ('bits/bips/bip173.py', 'bits/bips/bip350.py', 'bits/utils.py')
+# (thread a, thread b), warm-up: indices into seq_ops() - the ordinary single-case checks run concurrently (vf/concur.py)
+CONCUR_SCEN = [((0, 1), ()), ((4, 9), (5,)), ((9, 7), (4, 10)), ((9, 9), (4,))]
 LEVEL = "exploration"
 RULE = ("round trip: FULL product 3 networks x versions 0..16 x every allowed program length (v0: 20,32; v1+: 2..40) x 8 content "
         "patterns (zeros, ones, filler, 0x80.., ..01, single-bit patterns); accept set: for 7 base addresses ALL single-character "
@@ -18,6 +21,7 @@ RULE = ("round trip: FULL product 3 networks x versions 0..16 x every allowed pr
 ASSUMPTIONS = ["vf/ref/bech32_ref.py transcribes the BIP173/BIP350 reference decoder (validated on the BIP vectors in the selftest); "
                "only the HRPs bc, tb, bcrt are 'supported networks'"]
 OBLIGATIONS = {
+    "concurrent_calls": "interleavings of two concurrent calls (single-case checks in two threads, cold and after warm-up calls)",
     "history_sequences": "operation sequences (non-initial process states) explored",
     "short_program_2_5": "a v1+ program of 2..5 bytes round-tripped", "all_zero_32": "an all-zero 32-byte program round-tripped",
     "nonalphabet_version_char": "a non-alphabet character in the version position", "data_part_7_chars": "a 7-character data part with valid checksum",
@@ -116,6 +120,9 @@ CASES = {"rt": chk_rt, "str": chk_str, "generic": chk_generic}
 
 
 def run_case(kind, case):
+    if kind == "concurcase":
+        from vf import concur
+        return concur.replay_cases(run_case, PROPERTY, case, CONCUR_FILES)
     if kind == "seq":
         from vf import seqexplore
         return seqexplore.replay(run_case, case)
@@ -282,10 +289,17 @@ def jobs(tier, seed):
            {"name": "vectors", "part": "vectors"}]
     from vf.runner import seq_jobs
     js += seq_jobs(2, weight=2)
+    from vf.runner import concur_jobs
+    js += concur_jobs(len(CONCUR_SCEN))
     return js
 
 
 def run_job(job):
+    if job["part"] == "concurcase":
+        from vf.runner import run_concur_job
+        ops = seq_ops(dict(job, shard=[0, 1]))
+        scens = [{"threads": [ops[i] for i in th], "warm": [ops[i] for i in wm]} for th, wm in CONCUR_SCEN]
+        return run_concur_job(job, scens, run_case, PROPERTY, CONCUR_FILES)
     if job["part"] == "seq":
         from vf.runner import run_seq_job
         return run_seq_job(job, seq_ops(job), run_case)
